@@ -209,9 +209,9 @@ class BigTtlTriplesYielder(BaseTriplesYielder):
     def _find_next_quoted_literal_ending(self, target_str, start_index):
         next_quotes = self._find_next_unescaped_quotes(target_str=target_str,
                                                        start_index=start_index+1)
-        if next_quotes +1 > len(target_str) or target_str[next_quotes + 1] == " ":
+        if next_quotes + 1 >= len(target_str) or target_str[next_quotes + 1] == " ":
             return next_quotes
-        elif target_str[next_quotes + 1] == "^":
+        elif target_str[next_quotes + 1] in ("^", "@"):
             return self._find_next_blank(target_str, next_quotes) - 1
         else:
             raise ValueError("Malformed literal? It seems like there is a problem of unmatching quotes: " + target_str)
